@@ -164,6 +164,13 @@ func (g *gen) prelude() []zn.Stmt {
 			show("外-in", v("N")),
 			ret(bin("+", &zn.Call{Name: "内", Args: []zn.Expr{v("N")}}, &zn.Member{Root: &zn.New{Class: "内类"}, Name: "值"})),
 		}},
+		// a name bound nearer than a top-level method of the same name is what a call means: an
+		// input that holds a method (施 is called with 翻 for its input 变, while a method 变
+		// exists), a method declared inside a body (支 below, while a top-level 支 exists)
+		&zn.FuncDef{Name: "翻", Params: []string{"M"}, Body: []zn.Stmt{ret(bin("*", v("M"), num(2)))}},
+		&zn.FuncDef{Name: "变", Params: []string{"M"}, Body: []zn.Stmt{ret(bin("+", v("M"), num(1)))}},
+		&zn.FuncDef{Name: "支", Params: []string{"M"}, Body: []zn.Stmt{ret(bin("+", v("M"), num(7000)))}},
+		&zn.FuncDef{Name: "施", Params: []string{"变", "X"}, Body: []zn.Stmt{show("施-in", v("X")), ret(&zn.Call{Name: "变", Args: []zn.Expr{v("X")}})}},
 		// methods and types declared inside a branch, a loop pass, a handler: known in that
 		// block (from their declaration on), gone when it ends
 		&zn.FuncDef{Name: "嵌", Params: []string{"N"}, Body: []zn.Stmt{
@@ -306,7 +313,7 @@ func (g *gen) mainOps() []zn.Stmt {
 	fresh := 0
 	nm := func(p string) string { fresh++; return fmt.Sprintf("%s%d", p, fresh) }
 	for i := 0; i < n; i++ {
-		switch g.pick(30, "op") {
+		switch g.pick(32, "op") {
 		case 25, 26: // one call site, different callees: through an input, and through a loop variable
 			fns := []string{"双", "和", "层", "偶", "奇", "深抛"}
 			a, b := fns[g.pick(len(fns), "hf1")], fns[g.pick(len(fns), "hf2")]
@@ -349,6 +356,9 @@ func (g *gen) mainOps() []zn.Stmt {
 			out = append(out, show("托", &zn.MCall{Root: v(a), Chain: []zn.Call{{Name: "托", Args: []zn.Expr{v(b), g.numArg(1)}}}}), g.showObj(a), g.showObj(b))
 			g.labels["receiver-after-handled-deep-exception"] = true
 			g.twoReceivers = true
+		case 30, 31: // an input named like a top-level method
+			out = append(out, show("input-shadows-method", &zn.Call{Name: "施", Args: []zn.Expr{v("翻"), g.numArg(1)}}, &zn.Call{Name: "变", Args: []zn.Expr{num(1)}}, &zn.Call{Name: "支", Args: []zn.Expr{num(1)}}))
+			g.labels["input-named-like-a-top-level-method"] = true
 		case 27, 28: // declarations inside branches, loop passes, handlers
 			out = append(out, show("block-decl", &zn.Call{Name: "嵌", Args: []zn.Expr{g.numArg(1)}}), show("block-decl-handler", &zn.Call{Name: "嵌救", Args: []zn.Expr{g.numArg(1)}}))
 			g.labels["declarations-inside-nested-blocks"] = true
